@@ -19,6 +19,7 @@ C08 (round 4) — three input dimensions the earlier models left out.
 -/
 import Pandora.Model.C08
 import Pandora.Model.C08Mach
+import Pandora.Model.C08Scan
 
 namespace Pandora.Model.C08
 
@@ -55,6 +56,7 @@ inductive SrcKind where
   | inline          -- datasource.NewInline / NewString (`type: inline`)
   | readSeeker      -- datasource.NewReader over an io.ReadSeeker that is no io.Closer
   | readSeekCloser  -- datasource.NewReader over an io.ReadSeeker that is an io.Closer
+  | readCloser      -- datasource.NewReader over an io.ReadCloser that cannot Seek (a pipe, a response body)
   | reader          -- datasource.NewReader over a plain io.Reader
   | buffer          -- datasource.NewBuffer
   deriving DecidableEq, Repr, Inhabited
@@ -73,12 +75,13 @@ def opensOf : SrcKind → OpenRes
   | .inline => .seekable
   | .readSeekCloser => .same
   | .readSeeker => .seekable
+  | .readCloser => .same
   | .reader => .plain
   | .buffer => .plain
 
 /-- can what the source was built from be rewound? -/
 def SrcKind.rewindable : SrcKind → Bool
-  | .reader | .buffer => false
+  | .readCloser | .reader | .buffer => false
   | _ => true
 
 /-- can the provider rewind what `OpenSource` gave it? -/
@@ -98,6 +101,52 @@ def genericRunSrc {α : Type} (k : SrcKind) (file : List α) (b : Bounds) (cance
 /-- a generic JSON cell over a source of kind `k` -/
 def runSrc (k : SrcKind) (inp : Input) (n : Nat) : Option (Outcome Nat) :=
   run { inp with kind := .genericJson, b := { inp.b with passes := effPasses k.seekable inp.b.passes } } n
+
+/-! ## scenario weights
+
+The scenario providers (http/scenario, grpc/scenario) replay the list their decoder builds from the `scenarios:` of the
+file: scenario `i`, in file order, `weight_i / g` times in a row, `g` = the greatest common divisor of all weights, a weight
+0 counting as 1 (config.SpreadNames + decodeAmmo).  These are the "entries" of a pass. -/
+
+/-- the weights as SpreadNames reads them: 0 = 1 -/
+def normWeights (ws : List Nat) : List Nat := ws.map (fun w => if w = 0 then 1 else w)
+
+/-- greatest common divisor of a list (0 for the empty list) -/
+def gcdList (ws : List Nat) : Nat := ws.foldr Nat.gcd 0
+
+/-- how many times each scenario occurs in a pass -/
+def spreadCounts (ws : List Nat) : List Nat := (normWeights ws).map (· / gcdList (normWeights ws))
+
+/-- scenario `i` repeated `cs[i]` times, in file order -/
+def spreadFrom : Nat → List Nat → List Nat
+  | _, [] => []
+  | i, c :: cs => List.replicate c i ++ spreadFrom (i + 1) cs
+
+/-- the entries of one pass of a scenario file with the weights `ws`: the identity (index of the scenario) of each -/
+def spread (ws : List Nat) : List Nat := spreadFrom 0 (spreadCounts ws)
+
+/-- a scenario cell with weights: the provider's loop over `(spread ws).length` entries; the ammo delivered at position `j` of a
+pass is scenario `(spread ws)[j]` -/
+def runWeights (inp : Input) (ws : List Nat) : Option (Outcome Nat) :=
+  (run inp (spread ws).length).map fun o => { o with delivered := o.delivered.map fun j => (spread ws).getD j 0 }
+
+/-- the Go type of an option or a counter -/
+inductive GoNum where
+  | uint   -- uint / uint64: 0 .. 2^64 - 1
+  | int    -- int / int64, validated min=0: 0 .. 2^63 - 1
+  | other
+  deriving DecidableEq, Repr, Inhabited
+
+/-- the values an option of that type can take -/
+def GoNum.fits : GoNum → Nat → Bool
+  | .uint, x => decide (x < 2 ^ 64)
+  | .int, x => decide (x < 2 ^ 63)
+  | .other, _ => false
+
+/-- the type of the `limit` and `passes` options of each provider kind -/
+def Kind.boundTy : Kind → GoNum
+  | .uri | .uripost | .raw | .jsonLines | .jsonArray | .httpScenario | .grpcScenario => .uint
+  | .grpcJson | .genericJson => .int
 
 /-! ## machine integers -/
 
@@ -128,5 +177,32 @@ def actToNat : Act (UInt64 × UInt64) → Act (Nat × Nat)
   | .ret r => .ret r
   | .tau s => .tau (s.1.toNat, s.2.toNat)
   | .offer i s => .offer i (s.1.toNat, s.2.toNat)
+
+/-- one round of the reading loop of uri / uripost / raw `Scan` (`Model.C08.roundEof`, bridged to the regenerated rounds) with
+the decoder's counters `d.ammoNum`, `d.passNum` and the option as Go `uint`s -/
+def roundEofU (passes : UInt64) (c : Bool) (rd : Rd) (ammoNum passNum : UInt64) : ScanAct :=
+  if c then .ret .canceled ammoNum.toNat passNum.toNat
+  else match rd with
+    | .entry => .ret .ammo (ammoNum + 1).toNat passNum.toNat
+    | .skip => .next ammoNum.toNat passNum.toNat
+    | .bad => .ret .failed ammoNum.toNat passNum.toNat
+    | .eof =>
+      if passes ≠ 0 ∧ passNum + 1 ≥ passes then .ret .errPass ammoNum.toNat (passNum + 1).toNat
+      else if ammoNum = 0 then .ret .errNoAmmo ammoNum.toNat (passNum + 1).toNat
+      else .rewind ammoNum.toNat (passNum + 1).toNat
+
+/-- … of jsonline `Scan` (`Model.C08.roundTop`) -/
+def roundTopU (passes : UInt64) (_c : Bool) (rd : Rd) (ammoNum passNum : UInt64) : ScanAct :=
+  if passes ≠ 0 ∧ passNum ≥ passes then .ret .errPass ammoNum.toNat passNum.toNat
+  else match rd with
+    | .entry => .ret .ammo (ammoNum + 1).toNat passNum.toNat
+    | .skip => .next ammoNum.toNat passNum.toNat
+    | .bad => .ret .failed ammoNum.toNat passNum.toNat
+    | .eof =>
+      if ammoNum = 0 then .ret .errNoAmmo ammoNum.toNat passNum.toNat
+      else .rewind ammoNum.toNat (passNum + 1).toNat
+
+/-- the limit check that opens every `Scan` and every iteration of runFullScan, over `uint` -/
+def limitReachedU (limit ammoNum : UInt64) : Bool := decide (limit ≠ 0 ∧ ammoNum ≥ limit)
 
 end Pandora.Model.C08
